@@ -362,7 +362,9 @@ def sym(name, *labels):
 
 
 # interpolation is linear in its table values (third argument)
-LINEAR_FNS = {'interp': 2, 'lininterp': 2, 'rev': 1}   # name -> position of the argument they are linear in
+LINEAR_FNS = {'interp': 2, 'lininterp': 2, 'rev': 1}
+REV_AS_GATHER = True
+ELEMENTWISE = {'spectral'}        # element-wise functions with no further algebra: distribute over bracket selections, commute with rev   # name -> position of the argument they are linear in
 
 
 def mk_fn(name, *args):
@@ -417,6 +419,11 @@ def mk_fn(name, *args):
                 a2 = ('B', lab, Poly({dep: Fraction(1)}).key())
                 out = out + Poly({ind: c}) * mk_fn(name, *(tuple(args[:k]) + (a2,) + tuple(args[k + 1:])))
             return out
+    if name == 'rev' and len(args) == 2 and args[0][0] == 'L' and args[1][0] == 'B' and args[0][1] == args[1][1] and REV_AS_GATHER:
+        # reversal is the gather x[len - 1 - i]: pushed down to the leaves like every gather, so rev(x*y) == rev(x)*rev(y) and rev(rev(x)) == x
+        lab = args[1][1]
+        run = Poly.atom(('sym', 'idx:' + str(lab), (lab,)))
+        return index_at(Poly.from_key(args[1][2]), lab, count(lab) - 1 - run)
     if name == 'rev' and len(args) == 2 and args[0][0] == 'L' and args[1][0] == 'B':
         inner = Poly.from_key(args[1][2])
         if inner.is_monomial():
@@ -436,6 +443,29 @@ def mk_fn(name, *args):
         p = Poly.from_key(args[0][1])
         if p.is_const():
             return Poly.const(abs(p.const_value()))
+    if name in ELEMENTWISE and len(args) == 1 and args[0][0] == 'P':
+        # an element-wise function of a value that is selected by brackets selects between the function values (Shannon expansion),
+        # and commutes with a reversal of the axis: f(rev(x)) == rev(f(x))
+        p = Poly.from_key(args[0][1])
+        inner = None
+        for a in sorted(p.atoms(), key=_k):
+            if a[0] == 'ind':
+                inner = a
+                break
+        if inner is not None and p.t:
+            p0, p1 = Poly(), Poly()
+            for m, c in p.t.items():
+                if any(at == inner for at, _ in m):
+                    p1 = p1 + Poly({tuple((at, e) for at, e in m if at != inner): c})
+                else:
+                    p0 = p0 + Poly({m: c})
+            r = Poly.atom(inner)
+            return r * mk_fn(name, P(p0 + p1)) + (Poly.const(1) - r) * mk_fn(name, P(p0))
+        if p.is_monomial():
+            (m, c), = p.t.items()
+            if c == 1 and len(m) == 1 and m[0][1] == 1 and m[0][0][0] == 'fn' and m[0][0][1] == 'rev' and len(m[0][0]) == 4 and m[0][0][3][0] == 'B':
+                at = m[0][0]
+                return mk_fn('rev', at[2], B(at[3][1], mk_fn(name, P(Poly.from_key(at[3][2])))))
     if name == 'argsort' and len(args) == 2 and args[0][0] == 'L' and args[1][0] == 'B' and args[0][1] == args[1][1]:
         # argsort of a permutation is its inverse: argsort(argsort(x)) == invperm(argsort(x))
         inner = Poly.from_key(args[1][2])
